@@ -1552,6 +1552,10 @@ evhttp_connection_cb_cleanup(struct evhttp_connection *evcon)
 	if (evcon->retry_max < 0 || evcon->retry_cnt < evcon->retry_max) {
 		struct timeval tv_retry = evcon->initial_retry_timeout;
 		int i;
+		/* a retry may already be scheduled (a request cancelled while we
+		 * were waiting starts the next one): never re-assign a pending event */
+		if (event_initialized(&evcon->retry_ev))
+			event_del(&evcon->retry_ev);
 		evtimer_assign(&evcon->retry_ev, evcon->base, evhttp_connection_retry, evcon);
 		/* XXXX handle failure from evhttp_add_event */
 		for (i=0; i < evcon->retry_cnt; ++i) {
